@@ -463,6 +463,9 @@ func main() {
 		points := 0
 		cases, calls := 0, 0
 		shapes := map[string]bool{}
+		vh.AtRecycle = func() {
+			vh.Summary(map[string]interface{}{"partial": true, "cases": cases, "calls": calls, "distinct": len(shapes), "crash_points": points, "inconclusive_after_deviation": inconclusive, "slow_calls_not_confirmed_as_blocked": slow})
+		}
 		want := func(idx int) bool {
 			if stride > 1 && idx%stride != int(vh.Seed())%stride {
 				return false
